@@ -385,8 +385,7 @@ fn varlink_bridge(
                 } else {
                     let stdin = ::std::io::stdin();
                     let stdout = ::std::io::stdout();
-                    handle(resolver, stdin, stdout).map_err(|e| format!("Bridging: {e}"))?;
-                    return Ok(());
+                    return bridge_result(handle(resolver, stdin, stdout).map(|_| ()));
                 }
             }
         },
@@ -395,8 +394,12 @@ fn varlink_bridge(
     let stdin = ::std::io::stdin();
     let stdout = ::std::io::stdout();
 
-    let r = handle_connect(connection, stdin, stdout);
+    bridge_result(handle_connect(connection, stdin, stdout))
+}
 
+/// A closed peer is the normal end of a bridge session, in every bridge mode.
+#[cfg(target_os = "linux")]
+fn bridge_result(r: Result<()>) -> Result<()> {
     if let Err(ref e) = r {
         if let Some(io_e) = e.downcast_ref::<std::io::Error>() {
             if io_e.kind() == std::io::ErrorKind::BrokenPipe {
